@@ -10,6 +10,7 @@ import mccheck
 import meta
 import findings
 import parcheck
+import protomc
 
 # ---------------------------------------------------------------------------------------
 # sequential-engine properties (monitor: specs/core/CoreTrace.tla)
@@ -64,19 +65,19 @@ SEQ = {
 }
 
 PAR = {
-    "C16": dict(par=["pardag"], needs=["hk:sync_claim", "we", "tstart"],
+    "C16": dict(models=["syncproto"], par=["pardag"], needs=["hk:sync_claim", "we", "tstart"],
                 rule="pardag family: acyclic programs with shared sub-queries, 3 rounds (writes between rounds) of 2-4 real threads "
                      "on clones issuing 1-4 requests each, seeded schedule jitter; non-trivial = threads ran and functions executed"),
-    "C17": dict(par=["pardag"], monitors=("par",), needs=["hk:sync_claim", "we", "tstart"],
+    "C17": dict(models=["syncproto"], par=["pardag"], monitors=("par",), needs=["hk:sync_claim", "we", "tstart"],
                 rule="same runs as C16; every WillExecute is checked against the set of keys already executed in the revision"),
-    "C18": dict(par=["parfix", "parfb"], needs=["hk:sync_claim", "we", "tstart"],
+    "C18": dict(models=["syncproto"], par=["parfix", "parfb"], needs=["hk:sync_claim", "we", "tstart"],
                 rule="fixpoint / fallback cycle programs entered concurrently at different members from 2-4 threads"),
-    "C19": dict(par=["pardag", "parfix", "parfb", "parpcycle", "parwrite", "parcancel", "parpanic"], monitors=("sync",), needs=["hk:sync_claim", "tstart"],
+    "C19": dict(models=["syncproto"], par=["pardag", "parfix", "parfb", "parpcycle", "parwrite", "parcancel", "parpanic"], monitors=("sync",), needs=["hk:sync_claim", "tstart"],
                 rule="all parallel families; every protocol event (hook H1) is applied to the SyncOps protocol state and its guard "
                      "and the protocol invariants are evaluated; non-trivial = threads ran and claimed keys"),
-    "C20": dict(par=["parwrite", "parwritefix"], monitors=("par",), needs=["wproc", "tstart", "dscf"],
+    "C20": dict(models=["cancel"], par=["parwrite", "parwritefix"], monitors=("par",), needs=["wproc", "tstart", "dscf"],
                 rule="readers on clones while the main handle writes (input write / synthetic write) at a seeded point"),
-    "C21": dict(par=["parcancel", "parcancelfix"], monitors=("par",), needs=["cancel_begin", "tstart"],
+    "C21": dict(models=["cancel"], par=["parcancel", "parcancelfix"], monitors=("par",), needs=["cancel_begin", "tstart"],
                 rule="local cancellation tokens cancelled at seeded points while 2-4 threads run requests (incl. fixpoint programs)"),
 }
 
@@ -272,9 +273,12 @@ def run_par(pid, tier, seed, replay):
         results = [parcheck.run_par_family(binary, rp.get("family", "replay"), seed, 0, wd, jobs=jobs)]
     else:
         results = run_par_families(binary, cfg["par"], tier, seed, wd, cfg.get("monitors", ("par", "sync")))
-    extra = {"monitors": list(cfg.get("monitors", ("par", "sync"))), "protocol_events": {"blocked": sum(r["proto"][0] for r in results), "releases": sum(r["proto"][1] for r in results),
+    extra = protomc.run_models(cfg.get("models", []), wd) if not replay else {}
+    for m in extra.get("mc_models", []):
+        log(f"[{pid}] MC {m['config']}: {m['distinct_states']} distinct states ({m['wall_s']}s)")
+    extra.update({"monitors": list(cfg.get("monitors", ("par", "sync"))), "protocol_events": {"blocked": sum(r["proto"][0] for r in results), "releases": sum(r["proto"][1] for r in results),
                                  "transfers": sum(r["proto"][2] for r in results), "cycles_reported": sum(r["proto"][3] for r in results)},
-             "hangs": sum(r["hangs"] for r in results)}
+             "hangs": sum(r["hangs"] for r in results)})
     return finish(pid, tier, seed, results, cfg, known, wd, t0, mc=extra)
 
 
